@@ -44,9 +44,16 @@ Proof. exact get_project_nosearch. Qed.
 Print Assumptions C19_get_project_nosearch.
 
 Theorem C19_get_project_nosearch_refuses : forall root cwd path,
-  cfg_at root cwd path = false -> get_project root cwd path false = (Err ELookupError, root).
+  cfg_at root cwd path = false -> raise_if_older root cwd path = None ->
+  get_project root cwd path false = (Err ELookupError, root).
 Proof. exact get_project_nosearch_refuses. Qed.
 Print Assumptions C19_get_project_nosearch_refuses.
+
+(* whatever else the directory holds (also a legacy project, see C20): never opened, nothing touched *)
+Theorem C19_get_project_nosearch_never_opens : forall root cwd path,
+  cfg_at root cwd path = false -> exists e, get_project root cwd path false = (Err e, root).
+Proof. exact get_project_nosearch_never_opens. Qed.
+Print Assumptions C19_get_project_nosearch_never_opens.
 
 (* ---- LookupError otherwise, never a guess, never a write ------------------------------- *)
 Theorem C19_lookup_error_missing_path : forall root cwd path s,
@@ -57,6 +64,7 @@ Print Assumptions C19_lookup_error_missing_path.
 Theorem C19_lookup_error_no_project : forall root cwd path s,
   no_cfg_above root cwd (abspath cwd path) ->
   older_up (S (length (abspath cwd path))) root cwd (abspath cwd path) = None ->
+  raise_if_older root cwd path = None ->
   get_project root cwd path s = (Err ELookupError, root).
 Proof. exact get_project_no_project. Qed.
 Print Assumptions C19_lookup_error_no_project.
